@@ -58,6 +58,13 @@ var _ Mailbox = (*BoundedMailbox)(nil)
 //   - When the mailbox is empty, Dequeue blocks until a message arrives (or the
 //     mailbox is disposed).
 func NewBoundedMailbox(capacity int) *BoundedMailbox {
+	// The underlying ring buffer tells a free cell from an occupied one by
+	// comparing the cell's sequence with the next position, which only works
+	// with at least two cells: a one-cell ring accepts a second Put and
+	// overwrites the unread message. Use the smallest capacity that is safe.
+	if capacity < 2 {
+		capacity = 2
+	}
 	return &BoundedMailbox{
 		underlying: gods.NewRingBuffer(uint64(capacity)),
 	}
